@@ -90,3 +90,15 @@ Example ex_roi_eof : RangeOfIdentifier true [120] = Ok 1.
 Proof. vm_compute. reflexivity. Qed.
 Example ex_roi_trunc : RangeOfIdentifier true [97;195] = Ok 2.
 Proof. vm_compute. reflexivity. Qed.
+
+From V Require Import C16.JsxEntities.
+(* "a&amp;&#x41;&#66;&;&zz;&" : amp, two numeric entities, the empty entity and an unknown one stay as text *)
+Example ex_jsxent : decodeJSXEntities true small_entity_table
+  [97; 38;97;109;112;59; 38;35;120;52;49;59; 38;35;54;54;59; 38;59; 38;122;122;59; 38]
+  = Ok [97; 38; 65; 66; 38;59; 38;122;122;59; 38].
+Proof. vm_compute. reflexivity. Qed.
+(* a code point above the BMP becomes a surrogate pair; an out-of-range number stays as text *)
+Example ex_jsxent_astral : decodeJSXEntities true small_entity_table [38;35;120;49;70;54;48;48;59] = Ok [55357; 56832].
+Proof. vm_compute. reflexivity. Qed.
+Example ex_parseint_range : ParseInt32 [50;49;52;55;52;56;51;54;52;56] 10 = None /\ ParseInt32 [45;50;49;52;55;52;56;51;54;52;56] 10 = Some (-2147483648).
+Proof. vm_compute. split; reflexivity. Qed.
